@@ -9,8 +9,8 @@ def make_scenarios(ctx, count):
     scns = []
     for i in range(count):
         rng = G.rng_for(ctx.seed, "C10", i)
-        cfa = G.rand_cfg(rng, mtu=rng.choice([576, 1500, 9216, rng.randint(576, 9216)]))
-        cfb = G.rand_cfg(rng, mtu=rng.choice([576, 1500, 9216, rng.randint(576, 9216)]))
+        cfa = G.rand_cfg(rng, mtu=rng.choice([576, 1500, 9216, rng.randint(576, 9216), rng.choice(G.MTUS_HUGE)]))
+        cfb = G.rand_cfg(rng, mtu=rng.choice([576, 1500, 9216, rng.randint(576, 9216), rng.choice(G.MTUS_HUGE)]))
         a, b = cfa["mac"], cfb["mac"]
         if a == b:
             continue
